@@ -250,6 +250,11 @@ def _events(mesh, depth_left):
         for sw in (False, True):
             for norm in (True, False):
                 ev.append(("union", sw, norm))
+    if M <= 8:
+        # three and four operands (the running offset of the domain indices matters from the third grid on)
+        ev.append(("union", True, True, 3))
+        ev.append(("union", False, False, 3))
+        ev.append(("union", True, True, 4))
     doms = sorted(set(d.tolist()))
     if len(doms) > 1:
         ev.append(("segments", tuple(doms[:1])))
@@ -305,33 +310,41 @@ def _apply(ctx, mesh, ev, hist):
                 break
         return m2
     if ev[0] == "union":
-        _, sw, norm = ev
+        sw, norm = ev[1], ev[2]
+        parts = ev[3] if len(ev) > 3 else 2
         g1 = _grid(mesh)
         shift = np.array([[2.5 * (np.ptp(v[0]) + 1)], [0.3], [0.1]])
-        g2 = _grid((v + shift, e, d))
-        g = union([g1, g2], swapped_normals=[False, sw], normalize_domain_indices=norm)
+        grids = [g1] + [_grid((v + i * shift, e, d)) for i in range(1, parts)]
+        flags = [False] + [bool(sw) if i % 2 == 1 else False for i in range(1, parts)]
+        g = union(grids, swapped_normals=flags, normalize_domain_indices=norm)
         m2 = _mesh_of(g)
-        # reference statement: vertices concatenated, elements offset, second part reversed iff swapped
-        e2 = e[[0, 2, 1], :] if sw else e
-        want_e = np.hstack([e, e2 + N])
-        if not (np.array_equal(m2[0], np.hstack([v, v + shift])) and np.array_equal(m2[1], want_e)):
+        # reference statement: vertices concatenated, elements offset, a part reversed iff flagged
+        want_v = np.hstack([v + i * shift for i in range(parts)])
+        want_e = np.hstack([(e[[0, 2, 1], :] if flags[i] else e) + i * N for i in range(parts)])
+        if not (np.array_equal(m2[0], want_v) and np.array_equal(m2[1], want_e)):
             ctx.violation(sig + "/arrays", case, "union vertices/elements")
-        # domain indices: two grids keep disjoint index sets, relative order inside each grid preserved
-        da, db = m2[2][:M], m2[2][M:]
-        if set(da.tolist()) & set(db.tolist()):
-            ctx.violation(sig + "/domains-disjoint", case, "domain indices of the two grids overlap: %s %s" % (sorted(set(da)), sorted(set(db))))
-        for part, src in ((da, d), (db, d)):
+        # domain indices: the grids keep pairwise disjoint index sets, relative order inside each grid preserved
+        pieces = [m2[2][i * M:(i + 1) * M] for i in range(parts)]
+        for i in range(parts):
+            for j in range(i + 1, parts):
+                if set(pieces[i].tolist()) & set(pieces[j].tolist()):
+                    ctx.violation(sig + "/domains-disjoint", case, "domain indices of grids %d and %d of the union overlap: %s %s" % (
+                        i, j, sorted(set(pieces[i].tolist())), sorted(set(pieces[j].tolist()))))
+        for part in pieces:
             # same partition of elements into domains, same ordering of the labels
-            if not np.array_equal(np.unique(src, return_inverse=True)[1], np.unique(part, return_inverse=True)[1]):
+            if not np.array_equal(np.unique(d, return_inverse=True)[1], np.unique(part, return_inverse=True)[1]):
                 ctx.violation(sig + "/domains-partition", case, "union changed the grouping/order of domain indices")
         if norm and sorted(set(m2[2].tolist())) != list(range(len(set(m2[2].tolist())))):
             ctx.violation(sig + "/domains-normalised", case, "normalised domain indices are not 0..N-1: %s" % sorted(set(m2[2].tolist())))
-        if not norm and not np.array_equal(da, d):
+        if norm and len(set(m2[2].tolist())) != parts * len(set(d.tolist())):
+            ctx.violation(sig + "/domains-count", case, "union of %d grids with %d domains each has %d distinct indices" % (parts, len(set(d.tolist())), len(set(m2[2].tolist()))))
+        if not norm and not np.array_equal(pieces[0], d):
             ctx.violation(sig + "/domains-kept", case, "first grid's domain indices changed without normalisation")
         ga, gb = R.geometry(v, e), R.geometry(*m2[:2])
-        ctx.check_close(sig + "/area", case, gb["volumes"].sum(), 2 * ga["volumes"].sum(), ROUND, "derived:area")
-        if sw and np.max(np.abs(gb["normals"][M:] + ga["normals"])) > 1e-13:
-            ctx.violation(sig + "/swapped", case, "swapped_normals did not reverse the normals")
+        ctx.check_close(sig + "/area", case, gb["volumes"].sum(), parts * ga["volumes"].sum(), ROUND, "derived:area")
+        for i in range(parts):
+            if flags[i] and np.max(np.abs(gb["normals"][i * M:(i + 1) * M] + ga["normals"])) > 1e-13:
+                ctx.violation(sig + "/swapped", case, "swapped_normals did not reverse the normals of grid %d" % i)
         return m2
     if ev[0] == "segments":
         segs = list(ev[1])
